@@ -125,11 +125,15 @@ static ToolRun make_run(uint64_t seed, uint64_t run, bool fault_cfg) {
     default: break;
     }
     T.valid = invalid == 0;
-    if (give_b) { if (r.chance(1, 2)) a.push_back("-b" + bopt); else { a.push_back("-b"); a.push_back(bopt); } }
-    if (invalid == 6) a.push_back(r.chance(1, 2) ? "-x" : "-Z");
-    if (invalid != 1) { a.push_back("-k"); a.push_back(keyhex); }
-    if (T.have_ctr) { a.push_back(T.tool == 1 ? (r.chance(3, 4) ? "-t" : "-c") : "-c"); a.push_back(ctrhex); }
-    if (T.decrypt) a.push_back("-d");
+    // options in a seeded order: the result must not depend on it
+    std::vector<std::vector<std::string>> groups;
+    if (give_b) { if (r.chance(1, 2)) groups.push_back({"-b" + bopt}); else groups.push_back({"-b", bopt}); }
+    if (invalid == 6) groups.push_back({r.chance(1, 2) ? "-x" : "-Z"});
+    if (invalid != 1) { if (r.chance(1, 4)) groups.push_back({"-k" + keyhex}); else groups.push_back({"-k", keyhex}); }
+    if (T.have_ctr) groups.push_back({T.tool == 1 ? (r.chance(3, 4) ? "-t" : "-c") : "-c", ctrhex});
+    if (T.decrypt) groups.push_back({"-d"});
+    for (size_t i = groups.size(); i > 1; --i) std::swap(groups[i - 1], groups[r.below((uint32_t)i)]);
+    for (auto &g : groups) for (auto &x : g) a.push_back(x);
     if (invalid == 7) { if (r.chance(1, 2)) a.push_back(in); } else { a.push_back(in); a.push_back(out); }
     T.argv = a;
     if (fault_cfg) { if (r.chance(1, 2)) T.fail_write_after = r.below(n + 1); else T.fail_read_after = r.below(n + 1); }
